@@ -1,6 +1,16 @@
 // Driver for the StateStore family (C01, C02, C04): the real mavl state store
-// (system/store/mavl on LevelDB in temp dirs) under one or several storage configurations,
-// inside this process and/or inside fresh child processes of this binary.
+// (system/store/mavl on LevelDB in temp dirs) under one or several storage configurations:
+//
+//	cfgs   instances inside this (long-lived, shared) replay process. mavl's global node cache
+//	       (memTree) is keyed by node hash only; with enableMavlPrefix a root hash does not
+//	       determine the keys of its children, so two DATABASES in one process would serve each
+//	       other nodes the other does not have. A production process has one store, hence:
+//	       only configurations without memTree, or memtree / memtree+val (pure content hashes),
+//	       may run here.
+//	kcfgs  long-lived child processes, one per replay worker and configuration, each with ONE
+//	       database that lives across behaviours (the cache history grows with every behaviour;
+//	       pending updates left over by a behaviour are rolled back at its end).
+//	ccfgs  fresh child processes, one per behaviour.
 //
 // Every step of a TLC behaviour is applied to every store instance of the run. The replies
 // of all instances must agree with each other and with the specification's prediction:
@@ -71,9 +81,11 @@ func flushStats(path string) {
 	gstats.Lock()
 	defer gstats.Unlock()
 	b, _ := json.Marshal(gstats.m)
-	tmp := fmt.Sprintf("%s.%d.tmp", path, os.Getpid())
+	// one file per replay process; bin/check sums them up
+	final := fmt.Sprintf("%s.%d.json", path, os.Getpid())
+	tmp := final + ".tmp"
 	if os.WriteFile(tmp, b, 0o644) == nil {
-		os.Rename(tmp, path)
+		os.Rename(tmp, final)
 	}
 }
 
@@ -94,6 +106,9 @@ type inst struct {
 	cfg  storeCfg
 	be   backend
 	dir  string
+	keep bool              // long-lived: survives the behaviour
+	pend map[string][]byte // hashes this behaviour left pending (rolled back at Close for keep instances)
+	dead bool
 }
 
 type rootInfo struct {
@@ -110,6 +125,7 @@ type drv struct {
 	hbase int64
 	step  int
 	api   string
+	kept  map[string]*inst
 }
 
 func fnv(s string) int64 {
@@ -207,7 +223,7 @@ func (d *drv) Reset(env *core.Env, b *core.Behaviour) error {
 			if err != nil {
 				return err
 			}
-			in := &inst{name: n + map[bool]string{false: "@local", true: "@child"}[childProc], cfg: cfg, dir: dir}
+			in := &inst{name: n + map[bool]string{false: "@local", true: "@child"}[childProc], cfg: cfg, dir: dir, pend: map[string][]byte{}}
 			if childProc {
 				in.be = &child{}
 			} else {
@@ -219,6 +235,38 @@ func (d *drv) Reset(env *core.Env, b *core.Behaviour) error {
 			}
 		}
 		return nil
+	}
+	// long-lived children: one database per worker and configuration for the whole run
+	for _, n := range strings.Split(env.Opt("kcfgs", ""), "/") {
+		if n == "" {
+			continue
+		}
+		if d.kept == nil {
+			d.kept = map[string]*inst{}
+		}
+		in := d.kept[n]
+		if in == nil {
+			cfg, ok := allCfgs[n]
+			if !ok {
+				return fmt.Errorf("unknown configuration %q", n)
+			}
+			base := env.Opt("keepdir", "")
+			if base != "" {
+				os.MkdirAll(base, 0o755)
+			}
+			dir, err := os.MkdirTemp(base, "vh-ss-keep-")
+			if err != nil {
+				return err
+			}
+			in = &inst{name: n + "@kept", cfg: cfg, dir: dir, keep: true, be: &child{}}
+			if err := in.be.Open(dir, cfg); err != nil {
+				return err
+			}
+			d.kept[n] = in
+			stat("kept_children_started", 1)
+		}
+		in.pend = map[string][]byte{}
+		d.insts = append(d.insts, in)
 	}
 	if err := mk(env.Opt("cfgs", "plain"), false); err != nil {
 		return err
@@ -239,6 +287,25 @@ func (d *drv) Reset(env *core.Env, b *core.Behaviour) error {
 
 func (d *drv) Close() {
 	for _, in := range d.insts {
+		if in.keep && !in.dead {
+			// the next behaviour starts without pending updates
+			for _, h := range in.pend {
+				if st := in.be.Rollback(h); strings.HasPrefix(st, "crash:") {
+					in.dead = true
+				}
+			}
+			if !in.dead {
+				stat("kept_behaviours", 1)
+				continue
+			}
+		}
+		if in.keep {
+			for n, k := range d.kept {
+				if k == in {
+					delete(d.kept, n)
+				}
+			}
+		}
 		if in.be != nil {
 			in.be.Close()
 		}
@@ -454,9 +521,13 @@ func (d *drv) Apply(s core.Step) (any, any, error) {
 			}
 			if st != "ok" {
 				obs[in.name] = st
+				in.dead = in.dead || strings.HasPrefix(st, "crash:")
 			} else {
 				obs[in.name] = hex.EncodeToString(h)
 				hash = h
+				if s.Op() == "MemSet" {
+					in.pend[string(h)] = h
+				}
 			}
 		}
 		m := merge(obs)
@@ -518,19 +589,27 @@ func (d *drv) Apply(s core.Step) (any, any, error) {
 		}
 		obs := map[string]any{}
 		for _, in := range d.insts {
+			var st string
 			if s.Op() == "Commit" {
-				obs[in.name] = in.be.Commit(ri.hash)
+				st = in.be.Commit(ri.hash)
 			} else {
-				obs[in.name] = in.be.Rollback(ri.hash)
+				st = in.be.Rollback(ri.hash)
 			}
+			if st == "ok" {
+				delete(in.pend, string(ri.hash))
+			}
+			in.dead = in.dead || strings.HasPrefix(st, "crash:")
+			obs[in.name] = st
 		}
 		ret = merge(obs)
 	case "Reopen":
 		kill := d.env.Opt("restart", "close") == "kill"
 		for _, in := range d.insts {
 			if err := in.be.Reopen(kill); err != nil {
+				in.dead = true
 				return nil, nil, fmt.Errorf("reopen %s: %v", in.name, err)
 			}
+			in.pend = map[string][]byte{}
 		}
 		stat("reopens", len(d.insts))
 		ret = "ok"
@@ -592,7 +671,7 @@ func (d *drv) Apply(s core.Step) (any, any, error) {
 
 func nInst(env *core.Env) int {
 	n := 0
-	for _, l := range []string{env.Opt("cfgs", "plain"), env.Opt("ccfgs", "")} {
+	for _, l := range []string{env.Opt("cfgs", "plain"), env.Opt("ccfgs", ""), env.Opt("kcfgs", "")} {
 		for _, x := range strings.Split(l, "/") {
 			if x != "" {
 				n++
